@@ -573,6 +573,39 @@ def rule_lzma_header(facts):
     if okk:
         r.ok("sibling", {"props byte": props, "lc/lp/pb": (lc, lp, pb), "dict size": dict_size,
                          "encoder contexts": "is_match[len & %d], literal_probs[prev >> %d]" % ((1 << pb) - 1, 8 - lc)})
+    # the end marker's is_match context: finish(n) must be given the number of bytes encoded (n >= 1; for the empty input
+    # both candidate contexts still hold the initial probability, so 0 and 1 are both accepted there)
+    fcalls = [blk for blk in p.calls() if (flow.callee(blk.term) or "").endswith("Encoder::finish")]
+    if len(fcalls) == 1 and fcalls[0].term.args[1].place is not None and not fcalls[0].term.args[1].place.proj:
+        ptp = PosTerms(p)
+        loc = fcalls[0].term.args[1].place.local
+        bad = None
+        try:
+            for nbytes in (1, 2, 3, 4, 5, 8, 9, 255, 256, 65537):
+                def leaf(q, nbytes=nbytes):
+                    # the enumerate index of the last byte read is nbytes - 1
+                    if q[0] == "field" and pat.has_call(q, "::next"):
+                        return nbytes - 1
+                    if q[0] == "phi":
+                        # loop-carried `last index seen` after at least one round
+                        return nbytes - 1
+                    raise pat.NotEvaluable(q)
+                got = pat.eval_gated(p, ptp, loc, fcalls[0].idx, leaf)
+                if (got & ((1 << pb) - 1)) != (nbytes & ((1 << pb) - 1)):
+                    bad = "after %d input byte(s) the end marker is coded in position state %d, every decoder reads it in %d" % (
+                        nbytes, got & ((1 << pb) - 1), nbytes & ((1 << pb) - 1))
+                    break
+        except (pat.NotEvaluable, pat.Overflow) as ex:
+            r.bad("lzmahdr|marker-pos", "cannot evaluate the position passed to finish: %s" % (flow.show(ex.args[0])[:60] if isinstance(ex.args[0], tuple) else ex.args[0],),
+                  pat.where(p, fcalls[0].idx), "unverifiable")
+            bad = None
+        else:
+            if bad:
+                r.bad("lzmahdr|marker-pos", bad, pat.where(p, fcalls[0].idx))
+            else:
+                r.ok("evaluation", {"end marker position": "number of bytes encoded (10 lengths incl. 1, 2, 256, 65537)"})
+    else:
+        r.bad("lzmahdr|finish-call", "cannot find the single call of Encoder::finish in process", pat.where(p), "unverifiable")
     # the dictionary size must be accepted by the reader (any u32) and >= the distance the stream uses (none: literal only)
     # size field per option
     v64 = tm.of_operand(w64[0].term.args[1])
